@@ -61,6 +61,7 @@ func init() {
 	generators["c14rand"] = func(g *G) { genC14(g, "rand") }
 	generators["c14stress"] = func(g *G) { genC14(g, "stress") }
 	generators["c14selftest"] = func(g *G) { genC14(g, "selftest") }
+	generators["c14soak"] = func(g *G) { genC14(g, "soak") }
 }
 
 // c14SelfTest is a deliberately racy pseudo-scenario (not part of generator "c14"): each worker
@@ -644,6 +645,16 @@ func c14ChildMain(a []string) {
 		os.Stdout.WriteString("ERR-args\n")
 		return
 	}
+	if strings.HasPrefix(a[0], "soak-") { // unforced soak scenarios, see c14soak.go
+		n, err := strconv.Atoi(a[1])
+		seed, err2 := strconv.ParseUint(a[2], 10, 64)
+		if err != nil || err2 != nil || n < 1 || n > c14MaxWorkers {
+			os.Stdout.WriteString("ERR-args\n")
+			return
+		}
+		c14ChildSoak(a[0][len("soak-"):], n, seed)
+		return
+	}
 	scn, ok := c14ParseScn(a[0])
 	n, err := strconv.Atoi(a[1])
 	if !ok || err != nil || n < 1 || n > c14MaxWorkers || (!scn.stress && n > c14MaxControlled) {
@@ -848,7 +859,11 @@ func c14RunChild(a []string) []string {
 	if err != nil {
 		exe = os.Args[0]
 	}
-	ctx, cancel := context.WithTimeout(context.Background(), c14ChildTimeout)
+	timeout := c14ChildTimeout
+	if len(a) > 0 && strings.HasPrefix(a[0], "soak-") {
+		timeout = c14SoakChildTimeout
+	}
+	ctx, cancel := context.WithTimeout(context.Background(), timeout)
 	defer cancel()
 	cmd := exec.CommandContext(ctx, exe, append([]string{"c14child"}, a...)...)
 	cmd.Env = append(os.Environ(), "GORACE=halt_on_error=0 exitcode=0 atexit_sleep_ms=0")
@@ -1128,6 +1143,40 @@ func genC14(g *G, which string) {
 			wg.Wait()
 		}
 		for _, c := range mine[lo:hi] {
+			g.emit("c14", c.scn, c.n, c.arg)
+		}
+		g.out.Flush()
+	}
+
+	// Soak scenarios (c14soak.go) run last and with little parallelism: each child keeps N cores busy
+	// for its whole time budget and must not compete with the schedule-controlled children.
+	if all || which == "soak" {
+		var soak []c14Case
+		for k, c := range c14SoakCases(g) {
+			if k%g.shardM == g.shardK {
+				soak = append(soak, c)
+			}
+		}
+		spar := runtime.NumCPU() / 8
+		if spar < 1 {
+			spar = 1
+		}
+		if v, err := strconv.Atoi(os.Getenv("C14_SOAK_PAR")); err == nil && v >= 1 {
+			spar = v
+		}
+		var wg sync.WaitGroup
+		sem := make(chan struct{}, spar)
+		for _, c := range soak {
+			wg.Add(1)
+			sem <- struct{}{}
+			go func(c c14Case) {
+				defer wg.Done()
+				defer func() { <-sem }()
+				c14Cache.Store(c.scn+" "+c.n+" "+c.arg, c14RunChild([]string{c.scn, c.n, c.arg}))
+			}(c)
+		}
+		wg.Wait()
+		for _, c := range soak {
 			g.emit("c14", c.scn, c.n, c.arg)
 		}
 		g.out.Flush()
